@@ -105,12 +105,55 @@ def check_progress(run_, F, A):
     run_.floor("A", 3)
 
 
+# the only things the dynamic codec may ask of other crates: serde_json's constant-time / shallow Value, Map and Number operations.  Anything
+# else (a generic (de)serializer of another crate, serde_json::to_value / from_value / from_str, ...) may recurse on attacker-chosen depth,
+# panic or allocate without a bound this check could state
+JSON_OK = {"get", "get_mut", "insert", "iter", "len", "is_empty", "new", "with_capacity", "contains_key", "keys", "values", "from_f64",
+           "as_array", "as_bool", "as_f64", "as_i64", "as_object", "as_str", "as_u64", "as_null", "as_number", "is_null", "is_array", "is_object",
+           "is_string", "is_number", "is_boolean", "is_u64", "is_i64", "is_f64"}
+HOME = ("core", "std", "alloc", "postcard_dyn")
+
+
+def external_calls(run_, F, dc):
+    n = 0
+    for f in sorted(dc.fns, key=lambda f: f.canon):
+        if "/tests/" in (f.file or "") or "::test" in f.canon or not f.blocks:
+            continue
+        bad = []
+        for b in f.blocks:
+            t = b.get("term") or {}
+            cal = t.get("callee") if t.get("k") == "call" else None
+            if not cal:
+                continue
+            kr = cal.get("krate")
+            rk = (cal.get("resolved") or {}).get("krate")
+            nm = cal.get("name")
+            if kr == "serde_json" and nm in JSON_OK:
+                continue
+            if kr in HOME and (rk is None or rk in HOME + ("postcard_schema", "serde_json")):
+                continue
+            bad.append("%s (line %s)" % (cal.get("full") or cal.get("canon"), t.get("line")))
+        key = summ_key(f)
+        run_.check(not bad, "X", key, "calls into another crate whose totality on untrusted input (recursion depth, panics, allocation) is not "
+                   "established by this check: %s" % ", ".join(bad[:3]), f.where(), found=bad,
+                   detail="only std and serde_json's shallow Value/Map/Number operations are called")
+        n += 1
+    return n
+
+
+def summ_key(f):
+    import summ
+    return summ.fn_key(f)
+
+
 def run(run_, ctx):
     F = ctx.facts("A")
     helpers = ctx.helpers("A")
     dc = F.crate("postcard_dyn")
     run_.configs.append("A")
     run_.bodies += len(dc.fns)
+    external_calls(run_, F, dc)
+    run_.floor("X", 20)
     import vint
     # ---- P -----------------------------------------------------------------------------------------------------------
     fns = []
